@@ -30,8 +30,13 @@ class Primitive(Trimesh):
     """
 
     # ignore superclass copy directives
-    __copy__ = None
-    __deepcopy__ = None
+    def __copy__(self, *args):
+        # the `Trimesh` versions pass `include_cache` which would be
+        # handed to our constructor: use the primitive copy method
+        return self.copy()
+
+    def __deepcopy__(self, *args):
+        return self.copy()
 
     def __init__(self):
         # run the Trimesh constructor with no arguments
